@@ -1,7 +1,7 @@
 #!/bin/bash
 # run every claimed check's quick (or given tier) command in /verif against /repo; summary to stdout
 tier=${1:-quick}
-cd /verif
+cd "$(dirname "$0")/.."
 for p in $(python3 -c "import json; print(' '.join(c['property_id'] for c in json.load(open('MANIFEST.json'))['checks']))"); do
   s=$(date +%s)
   out=$(./check.py $p --tier $tier 2>/dev/null | grep -E "^(SUMMARY|VIOLATION|UNCONFIRMED|INCONCLUSIVE|KNOWN)" | cut -c1-220)
